@@ -648,6 +648,44 @@ class Unit:
         self.lost = []           # (fn, reason): annotations could not be spliced
 
 
+def finding_roles():
+    """{tag: (primary property ids, shared property ids)} from known_findings.txt (`finding:` lines carrying a KF<n> tag)"""
+    roles = {}
+    p = os.path.join(VERIF, 'known_findings.txt')
+    if os.path.exists(p):
+        for line in open(p):
+            if not line.startswith('finding:'):
+                continue
+            tag = re.search(r'\b(KF\d+)\b', line)
+            pm = re.search(r'property=([\w,]+)', line)
+            sm = re.search(r'shared=([\w,]+)', line)
+            if tag and pm:
+                a, b = roles.setdefault(tag.group(1), (set(), set()))
+                a.update(pm.group(1).split(','))
+                if sm:
+                    b.update(sm.group(1).split(','))
+    return roles
+
+
+def expand_known_findings(text, u):
+    """`known_finding!(KFn, EXPR);` in a proof block: an obligation that FAILS on the pinned tree and is recorded in
+    known_findings.txt.  For the property the finding violates (and when no property is being checked: dev, rebaseline) it is
+    emitted as `assert(EXPR)` - it fails, and the check prints KNOWN-FINDING.  For a property whose proof merely shares the code it
+    is an explicit hypothesis: `assume(EXPR)`, excluded from the mechanical trusted-base scan and listed in the evidence instead."""
+    pid = os.environ.get('VERIF_PID', '')
+    roles = finding_roles()
+    u.finding_hypotheses = []
+
+    def rep(m):
+        tag, expr = m.group(1), m.group(2)
+        prim, shared = roles.get(tag, (set(), set()))
+        if pid and pid not in prim:
+            u.finding_hypotheses.append('%s (known finding of %s): %s' % (tag, ','.join(sorted(prim)) or '?', ' '.join(expr.split())))
+            return 'assume(%s);   // hypothesis: known finding %s of %s' % (expr, tag, ','.join(sorted(prim)))
+        return 'assert(%s);   // %s: fails - see known_findings.txt' % (expr, tag)
+    return re.sub(r'known_finding!\(\s*(KF\d+)\s*,\s*(.*?)\);', rep, text)
+
+
 TRUST_PATTERNS = [r'#\[verifier::external_body\]', r'\bassume_specification\b', r'\bassume\s*\(', r'\badmit\s*\(',
                   r'#\[verifier::external\b', r'#\[verifier::exec_allows_no_decreases_clause\]', r'\buninterp\s+spec\b',
                   r'#\[verifier::(external_type_specification|external_fn_specification)', r'\baxiom\b']
@@ -737,7 +775,7 @@ def generate_unit(unit_name, specs, probe=False, force_lost=None):
             else:
                 raise GenError('unit %s: unknown directive %s' % (unit_name, cmd))
     process(path)
-    u.text = ''.join(out)
+    u.text = expand_known_findings(''.join(out), u)
     for rel, tr in pending_trait_checks:
         sigs, sha = check_trait_sigs(rel, tr, u.text)
         u.trait_checks.append({'trait': tr, 'src': rel, 'sha256': sha, 'methods': [' '.join(s.split()) for s in sigs]})
@@ -745,6 +783,8 @@ def generate_unit(unit_name, specs, probe=False, force_lost=None):
     lines = u.text.split('\n')
     for i, l in enumerate(lines):
         code = l.split('//')[0]
+        if '// hypothesis: known finding' in l:
+            continue
         for pat in TRUST_PATTERNS:
             if re.search(pat, code):
                 # describe with the next non-attribute line (the item header)
